@@ -13,7 +13,7 @@ def corpus(ctx):
     pat = gen_conn.pattern_family()
     if ctx.quick:
         return rng.sample(fam, 24) + [gen_conn.random_sdesc(rng) for _ in range(24)] + rng.sample(pat, 12)
-    return rng.sample(fam, 500) + [gen_conn.random_sdesc(rng) for _ in range(500)] + pat
+    return rng.sample(fam, 180) + [gen_conn.random_sdesc(rng) for _ in range(180)] + pat
 
 
 def drive_one(item):
@@ -31,7 +31,7 @@ def validate(traces, shards=16):
     if crashed:
         raise tlc.MachineryError('driver crashed outside a recorded call:\n' + crashed[0]['crash'])
     traces = [t for t in traces if 'skip' not in t]
-    mon = tlc.run_monitor('Mon_ConnCoding', traces, cfg='Mon_ConnCoding.cfg', shards=shards, timeout=1800)
+    mon = tlc.run_monitor('Mon_ConnCoding', traces, cfg='Mon_ConnCoding.cfg', shards=shards, timeout=5400)
     return traces, mon
 
 
